@@ -3894,6 +3894,11 @@ def _check_dependents_are_predicates(
         if not allow_reduction:
             if isinstance(e, (ApplyConcatApply, TreeReduce, ShuffleReduce)):
                 return False
+            # Likewise anything else whose value in one row depends on other
+            # rows (cumulative and window operations, in logical or lowered
+            # form) changes when the frame below it is filtered first
+            if isinstance(e, MapOverlap) or not isinstance(e, (Blockwise, Literal)):
+                return False
 
         allowed_expressions.add(e._name)
         stack.extend(e.dependencies())
